@@ -462,27 +462,41 @@ class C19(Check):
             td.write(nm, ihex.write(img, policy=pol, order=order))
             names.append(nm)
             wants.append(ihex.reference_hash(img))
+        names_ok, wants_ok = list(names), list(wants)
         if a.missing:
             names.insert(a.missing - 1, "missing.hex")
             wants.insert(a.missing - 1, None)
-        app_arg = a.sep.join(td.file(n) for n in names)
+        names_bad, wants_bad = names, wants
+        # missing_in: the runs in which the unreadable image is part of the list (default: both);
+        # [1] = a good run first, then a failing run over the files the good run left
+        missing_in = a.missing_in if a.missing_in is not None else [0, 1]
         pkpath = td.file("pub.key")
         pubs, scalars = [], []
         allsigs = []            # (run, file, r, s, z, public key) of every signature that verified
         args = dict(a)
         for run, label in enumerate(a.streams):
             stats.evaluations += 1
+            bad_run = bool(a.missing) and run in missing_in
+            names, wants = (names_bad, wants_bad) if bad_run else (names_ok, wants_ok)
+            app_arg = a.sep.join(td.file(n) for n in names)
             stream = opstub.ByteStream(label)
             inputs = {n: td.read(n, binary=True) for n in td.listing() if n in names}
             before = {n: td.read(n, binary=True) for n in td.listing()}
+
+            def stat_of(n):
+                st = os.stat(td.file(n))
+                return (st.st_ino, st.st_mtime_ns, st.st_size)
+            stat_before = {n: stat_of(n) for n in td.listing()}
             r = opstub.run_main(self.signonetime.main,
                                 ["signonetime.py", "-a", app_arg, "-p", pkpath + (" " if a.pad else "")] +
                                 (["-v"] if a.verbose else []),
                                 patches=opstub.seam_urandom(stream))
             files = {n: td.read(n, binary=True) for n in td.listing()}
-            written = {n: c for n, c in files.items() if before.get(n) != c}
+            # written in this run: new or changed content, or rewritten with the same content
+            written = {n: c for n, c in files.items()
+                       if before.get(n) != c or stat_before.get(n) != stat_of(n)}
             failed = r.code != 0
-            stats.observe(("onetime", len(a.images), a.sep, bool(a.missing), run, r.code, len(written)))
+            stats.observe(("onetime", len(a.images), a.sep, a.missing, bad_run, run, r.code, len(written)))
             stats.sample({"route": "onetime", "images": a.images, "run": run, "exit": r.code,
                           "files": sorted(written)})
             if r.exc:
@@ -499,7 +513,11 @@ class C19(Check):
                     pub = bytes.fromhex(raw_pk.decode("ascii").strip())
                 except Exception:   # noqa
                     pub = None
-            expect_ok = not a.missing
+            expect_ok = not bad_run
+            if failed and "pub.key" in written and (pub is None or not ecsig.on_curve(pub)):
+                # a failing run owes no file, but what it leaves is complete or was there before
+                self.viol(vs, "public-key-file", "onetime:half-written-after-failure", "onetime", args,
+                          {"exit": r.code, "file": raw_pk}, {"file": "as before, or a complete public key"})
             if expect_ok and (r.code != 0 or pub is None or not ecsig.on_curve(pub)):
                 self.viol(vs, "public-key-file", "onetime:run%d" % run, "onetime", args,
                           {"exit": r.code, "file": raw_pk, "out": r.out[-300:]},
@@ -516,7 +534,8 @@ class C19(Check):
                             break
                     if scalar:
                         break
-            pubs.append(pub)
+            # freshness is about keys this run wrote, not about a file an earlier run left
+            pubs.append(pub if "pub.key" in written else None)
             scalars.append(scalar)
             # signatures
             for nm, want in zip(names, wants):
@@ -682,9 +701,14 @@ class C19(Check):
         self.x_onetime(Args(images=images, sep=sep, pad=v % 2 == 1, verbose=v % 4 >= 2,
                             streams=["c19-run-%d-%d-a" % (n, v), "c19-run-%d-%d-b" % (n, v)]), stats, vs)
         if v == 0:
-            # an unreadable image in the list: only the leak / freshness clauses apply
-            self.x_onetime(Args(images=images, sep=",", missing=n,
-                                streams=["c19-miss-%d-a" % n, "c19-miss-%d-b" % n]), stats, vs)
+            # an unreadable image at each position of the list, in both runs or only in the second
+            # (then over the files a good run left): the failing run owes nothing, but every file
+            # it leaves is as before or complete (and the leak / freshness clauses apply)
+            for pos in range(1, n + 2):
+                for missing_in in ([0, 1], [1]):
+                    self.x_onetime(Args(images=images, sep=",", missing=pos, missing_in=missing_in,
+                                        streams=["c19-miss-%d-%d-a" % (n, pos), "c19-miss-%d-%d-b" % (n, pos)]),
+                                   stats, vs)
 
 
 CHECK = C19
